@@ -84,15 +84,29 @@ func parseLocation(zone string) (*time.Location, error) {
 		return time.UTC, nil
 	}
 	if tm, err := time.Parse("MST", zone); err == nil {
-		return tm.Location(), nil
+		return fixedLocation(tm), nil
 	}
 	if tm, err := time.Parse("Z07:00", zone); err == nil {
-		return tm.Location(), nil
+		return fixedLocation(tm), nil
 	}
 	if zone == "Local" {
 		return time.Local, nil
 	}
 	return nil, fmt.Errorf("unable to parse time-zone from '%v'", zone)
+}
+
+// fixedLocation returns the location of a parsed zone, detached from the zone
+// of the process: time.Parse answers time.Local when the written offset is one
+// the local zone uses, and times in it would follow its daylight-saving rules.
+func fixedLocation(tm time.Time) *time.Location {
+	if tm.Location() != time.Local {
+		return tm.Location()
+	}
+	_, offset := tm.Zone()
+	if offset == 0 {
+		return time.UTC
+	}
+	return time.FixedZone("", offset)
 }
 
 // DurationToDuration converts a FHIR Duration element into a Go native
